@@ -14,7 +14,7 @@ WriteSeqs == ndJsonSerialize(SeqFile, [i \in 1..Len(SeqList) |-> [s |-> i, kinds
                  tracked |-> SetToSeq(Tracked),
                  defs |-> [j \in 1..Len(SeqList[i]) |->
                              LET kd == KDef(SeqList[i][j]) d == Def(kd.res)
-                             IN [res |-> kd.res, method |-> kd.method, range |-> kd.range, rbody |-> kd.rbody, status |-> d.status,
+                             IN [res |-> kd.res, method |-> kd.method, range |-> kd.range, rbody |-> kd.rbody, expect |-> kd.expect, status |-> d.status,
                                  hdrs |-> SetToSeq(d.hdrs), body |-> d.body]]]])
 ASSUME WriteSeqs
 VARIABLE dummy
